@@ -117,7 +117,10 @@ theorem wait_for_graph :
 theorem stop_sites :
     (ShVerif.Gen.C31.ctxUses.filter fun x => x.2.1 = "stop-call") = stopCalls
       ∧ (ShVerif.Gen.C31.ctxUses.filter fun x => x.2.1 ≠ "stop-call").all ShVerif.Expect.C31.ctxUses.contains = true
-      ∧ ShVerif.Expect.C31.ctxUses.all ShVerif.Gen.C31.ctxUses.contains = true := by
+      ∧ ShVerif.Expect.C31.ctxUses.all ShVerif.Gen.C31.ctxUses.contains = true
+      -- no `Fd()` call can reach a pipe or regular file (each is behind a ModeCharDevice test, d41cde1):
+      -- the only thing left that switches the runner's stdin to blocking mode is os/exec (`exec-stdin`)
+      ∧ ShVerif.Gen.C31.ctxUses.all (fun x => x.2.1 ≠ "Fd-call") = true := by
   decide +kernel
 
 /-- Context capture.  The command- and process-substitution callbacks stored in `r.ecfg` are
